@@ -1,11 +1,15 @@
 """C08 - an interrupted update never corrupts or loses existing declarations.
 
 Theorems: coq/Props/C08.v (generic layer: any crash point of the write-temporary-then-rename protocol leaves the
-records as after a whole number of record-level effects).
+records as after a whole number of record-level effects; second layer: Model/CrashDb.v puts the database commands
+of Model/Db.v on that store - what a reader sees at every crash point of every command).
 Tie to the code: every mutating operation of generated histories is run on the real code with the process killed
 (os._exit) after k file-system effects, for every k; the surviving ups_db is compared (a) with the model's
 crash_state for the effect list observed in the completed run, (b) with the property's own oracle: a fresh reader
-succeeds, every record file is byte-identical to its old or its new form, everything else is untouched.
+succeeds, every record file is byte-identical to its old or its new form, everything else is untouched, (c) what the
+fresh reader reports (declarations, tags) with Model/CrashDb.read_db on the model's crash store for the same number of
+completed effects.  For every operation the ordered record-level effects (kind, path) of its completed run are
+compared with Model/CrashDb.image of Db.effects on the model state reached by the same history.
 """
 import json
 import os
